@@ -20,7 +20,7 @@ func init() { register(&profile{id: "C06", num: 6, name: "robust-parse", run: ru
 
 // coreWorlds are the hand-written worlds; miniWorlds port the grammar shapes of the repository's
 // own parser tests; exampleWorlds port the grammars under _examples.
-var coreWorlds = []*world{worldIni, worldExpr, worldHeredoc, worldBasic, worldConformance, worldCallbacks, worldDurations, worldMisc, worldTuple, worldLines, worldDashed, worldTokcap, worldNotes, worldAnon, worldDefs}
+var coreWorlds = []*world{worldIni, worldExpr, worldHeredoc, worldBasic, worldConformance, worldCallbacks, worldDurations, worldMisc, worldTuple, worldLines, worldDashed, worldTokcap, worldNotes, worldAnon, worldDefs, worldShapes}
 
 var robustWorlds = append(append(append(append([]*world{}, coreWorlds...), miniWorlds...), exampleWorlds...), exampleWorlds2...)
 
